@@ -2523,6 +2523,23 @@ class C06(Property):
         return getattr(self, '_nt', False)
 
     # ------------------------------------------------------------------ shrinking
+    _SALT = re.compile(r'Z[qrs]\d+')
+    _salt_n = 0
+
+    def _resalt(self, x):
+        C06._salt_n += 1
+        new = 'Zs%d' % C06._salt_n
+
+        def walk(v):
+            if isinstance(v, str):
+                return self._SALT.sub(new, v)
+            if isinstance(v, list):
+                return [walk(y) for y in v]
+            if isinstance(v, dict):
+                return {kk: walk(vv) for kk, vv in v.items()}
+            return v
+        return walk(x)
+
     def shrink(self, case):
         k = case['k']
         if k in ('q', 'u', 'p', 'l'):
@@ -2535,13 +2552,15 @@ class C06(Property):
                 yield dict(case, t=t[:i] + t[i + 1:])
             return
         if k == 'h':
-            yield case['case']               # without any history
+            # whatever the earlier calls left behind in the module is still there: a candidate is only meaningful on
+            # texts the module has not seen yet -> every candidate gets a new salt
             pre = case['pre']
+            cands = [case['case']]               # without any history
             if len(pre) > 3:
-                yield dict(case, pre=pre[:len(pre) // 2])
-                yield dict(case, pre=pre[len(pre) // 2:])
-            for i in range(len(pre)):
-                yield dict(case, pre=pre[:i] + pre[i + 1:])
+                cands += [dict(case, pre=pre[:len(pre) // 2]), dict(case, pre=pre[len(pre) // 2:])]
+            cands += [dict(case, pre=pre[:i] + pre[i + 1:]) for i in range(len(pre)) if len(pre) > 1]
+            for c in cands:
+                yield self._resalt(c)
             return
         if k == 'd':
             steps = case['steps']
